@@ -265,6 +265,16 @@ func ruleHostPorts(c *Ctx, rule string) {
 				}
 			}
 		})
+		if len(closes) == 0 {
+			// the close loop extracted into a helper
+			for _, h := range helperFns(fn, 1) {
+				allInstrs(h, func(in ssa.Instruction) {
+					if x, ok := in.(ssa.CallInstruction); ok && x.Common().IsInvoke() && x.Common().Method.Name() == "Close" {
+						closes = append(closes, x)
+					}
+				})
+			}
+		}
 		if look == nil || del == nil || len(closes) == 0 {
 			c.undecided(rule, fn, "lookup / Close / delete", nil, "expected the lookup of the pod's sockets, Close calls and the delete of the entry")
 		} else {
@@ -282,7 +292,12 @@ func ruleHostPorts(c *Ctx, rule string) {
 			c.ob(rule, fn, "sockets are closed and the entry deleted in the critical section of its lookup", del, !released && guardedBy(fn, del, found),
 				"no Unlock is reachable between the lookup of the pod's sockets and the delete of the entry (an OpenHostports of a new sandbox cannot slip in), and the delete is on the found edge")
 			for _, cl := range closes {
-				okH, held := heldAt(c, fn, cl, "PortMappingHandler.Mutex")
+				at := siteIn(fn, cl) // the Close itself, or the call of the helper that closes
+				if at == nil {
+					c.undecided(rule, fn, "Close under the handler mutex", cl, "the Close is not reached from CloseHostports through one static call")
+					continue
+				}
+				okH, held := heldAt(c, fn, at, "PortMappingHandler.Mutex")
 				c.ob(rule, fn, "Close under the handler mutex", cl, okH, held)
 			}
 		}
@@ -294,22 +309,25 @@ func ruleHostPorts(c *Ctx, rule string) {
 			continue
 		}
 		hn := calls(fn, pmPkg+".hostportChainName")
-		if len(hn) != 1 {
-			c.undecided(rule, fn, "hostportChainName", nil, fmt.Sprintf("expected one call, found %d", len(hn)))
+		if len(hn) == 0 {
+			c.undecided(rule, fn, "hostportChainName", nil, "expected a call, found none")
 			continue
 		}
-		a := hn[0].Common().Args
-		b, f, ok := fieldLoad(a[1])
-		okS := ok && f == "PodName"
-		if okS {
-			// same port value: a[0] is a load of the same cell / same value
-			if ld, isLd := a[0].(*ssa.UnOp); isLd {
-				okS = ld.X == b
-			} else {
-				okS = a[0] == b
+		// one call per loop over the ports (a function may walk the ports twice): every one has the same argument shape
+		for _, h := range hn {
+			a := h.Common().Args
+			b, f, ok := fieldLoad(a[1])
+			okS := ok && f == "PodName"
+			if okS {
+				// same port value: a[0] is a load of the same cell / same value
+				if ld, isLd := a[0].(*ssa.UnOp); isLd {
+					okS = ld.X == b
+				} else {
+					okS = a[0] == b
+				}
 			}
+			c.ob(rule, fn, "chain name computed from (port, port.PodName)", h, okS, "hostportChainName(containerPort, containerPort.PodName): setup, cleanup and full sync agree on the name")
 		}
-		c.ob(rule, fn, "chain name computed from (port, port.PodName)", hn[0], okS, "hostportChainName(containerPort, containerPort.PodName): setup, cleanup and full sync agree on the name")
 	}
 	// R3: -X only for galaxy chains
 	nx := 0
